@@ -187,7 +187,14 @@ class Runner:
             ent["target"] = _Target()
             with warnings.catch_warnings():
                 warnings.simplefilter("ignore")
-                sm.bind_events_to(ent["target"])
+                if op.get("bind_conflict"):
+                    # several targets in one call; an EARLIER one already owns an attribute named like one
+                    # of the events (skipped there with a warning): the later target still gets every trigger
+                    busy = _Target()
+                    setattr(busy, op["bind_conflict"], "taken")
+                    sm.bind_events_to(busy, ent["target"])
+                else:
+                    sm.bind_events_to(ent["target"])
         if op.get("custom_attr"):
             sm.custom_attr = {"n": [tag, 1]}
             sm._custom_private = ["private", tag]  # user subclasses keep their own state in such attributes
